@@ -6,6 +6,7 @@ import (
 	"fmt"
 	"reflect"
 	"sync"
+	"time"
 
 	"github.com/philpearl/plenc/plenccodec"
 
@@ -25,6 +26,17 @@ func (r realDesc) Attr() (int, string, int, string, bool, int) {
 func (r realDesc) NumElements() int             { return len(r.d.Elements) }
 func (r realDesc) Element(i int) model.RealDesc { return realDesc{&r.d.Elements[i]} }
 
+var c13Times = reflect.TypeOf(struct {
+	M  map[string]time.Time `plenc:"1"`
+	L  []time.Time          `plenc:"2"`
+	T  time.Time            `plenc:"3"`
+	P  *time.Time           `plenc:"4"`
+	MS map[string]struct {
+		T time.Time `plenc:"1"`
+	} `plenc:"5"`
+	MI map[int32]time.Time `plenc:"6"`
+}{})
+
 // genDescType generates a type with a finite descriptor
 func genDescType(c *core.Ctx, idx int, forJSON bool) *tcase {
 	for try := 0; ; try++ {
@@ -35,8 +47,17 @@ func genDescType(c *core.Ctx, idx int, forJSON bool) *tcase {
 				// default slice and map forms and the original time encoding
 				tg.C.ProtoArrays, tg.C.ProtoTime = false, false
 				tg.NoProtoOpt = true
+				if idx%9 == 4 {
+					// an instance on which the BigQuery timestamp codec is the codec of time.Time
+					// itself, as it has to be for map values and slice elements, which carry no tag
+					tg.C.Plain = map[reflect.Type]model.Special{model.TimeT: model.SpBQTime}
+				}
 			}
 		})
+		if forJSON && idx%18 == 4 {
+			// every position a time.Time without a tag option can take
+			tc.typ = c13Times
+		}
 		if !isRecursive(tc.typ) {
 			return tc
 		}
@@ -308,8 +329,8 @@ func c13Case(c *core.Ctx, idx int) {
 		desc := func() string {
 			return fmt.Sprintf("[%s]\n  type %s\n  value %s\n  bytes %s", tc.name, typeString(tc.typ), model.Show(v), hexHead(data))
 		}
-		if len(data) == 0 && tc.typ.Kind() != reflect.Struct && tc.typ.Kind() != reflect.Slice && tc.typ.Kind() != reflect.Map {
-			continue // a top-level scalar that is omitted leaves nothing to walk
+		if len(data) == 0 && ((tc.typ.Kind() != reflect.Struct && tc.typ.Kind() != reflect.Slice && tc.typ.Kind() != reflect.Map) || tc.cfg.WireType(tc.typ, "") != 2) {
+			continue // a top-level scalar that is omitted leaves nothing to walk (a time.Time the instance writes as one integer is one)
 		}
 		out, rerr, pn := renderJSON(&d, data)
 		if pn != "" {
